@@ -310,6 +310,9 @@ class Exec:
         if k == "cindex":
             items = self.elements(val)
             return items[-p[1] if p[2] else p[1]]
+        if k == "range":
+            items = self.elements(val)
+            return ("agg", tuple(items[p[1]:p[2]]))
         raise ExecError("projection " + str(p))
 
     def elements(self, val):
@@ -404,6 +407,15 @@ class Exec:
             items = list(self.elements(cur))
             i = -p[1] if p[2] else p[1]
             items[i] = self.write_into(items[i], rest, newv, st)
+            return ("agg", tuple(items))
+        if p[0] == "range":
+            items = list(self.elements(cur))
+            sub = ("agg", tuple(items[p[1]:p[2]]))
+            sub = self.write_into(sub, rest, newv, st)
+            new_items = list(self.elements(sub))
+            if len(new_items) != p[2] - p[1]:
+                raise ExecError("slice write changes the length")
+            items[p[1]:p[2]] = new_items
             return ("agg", tuple(items))
         raise ExecError("write projection " + str(p))
 
@@ -747,7 +759,6 @@ class Exec:
             ctx.blocks_executed += 1
             if bb in env.stop_blocks and not at_start:
                 return Outcome([], [], [(True, bb, dict(st.locals), st.heap)])
-            at_start = False
             if bb in env.cut_blocks and not skip_cut:
                 # summarise the continuation from this control state, memoised on the live part of the store
                 key = (bb, tuple(sorted((l, vkey(v)) for l, v in st.locals.items() if l in env.live[bb])), self.heap_key(st))
@@ -762,7 +773,7 @@ class Exec:
                 # the path condition of the first visitor: explore it under `True` (plus the global assumptions)
                 st2 = State(st.frame, func, dict(st.locals), self.copy_heap(st.heap), True)
                 try:
-                    res = self.explore(st2, bb, env, skip_cut=True)
+                    res = self.explore(st2, bb, env, skip_cut=True, at_start=at_start)
                 finally:
                     env.onstack[bb] = cnt
                 if not st.heap:
@@ -770,6 +781,7 @@ class Exec:
                 env.memo[key] = res
                 return res
             skip_cut = False
+            at_start = False
             blk = func.blocks[bb]
             for s in blk.stmts:
                 if s[0] == "assign":
